@@ -117,10 +117,10 @@ func runCheck(opt *checkOpts) int {
 		if fc.Pure || fc.Trusted || !fc.hasProp(opt.property) {
 			continue
 		}
-		if opt.only != "" && k != opt.only && !strings.HasSuffix(k, "."+opt.only) {
+		if opt.only != "" && strings.TrimSuffix(k, "!body") != opt.only && !strings.HasSuffix(strings.TrimSuffix(k, "!body"), "."+opt.only) {
 			continue
 		}
-		if _, ok := repo.funcs[k]; !ok {
+		if _, ok := repo.funcs[strings.TrimSuffix(k, "!body")]; !ok {
 			structural = append(structural, Result{Obl: Obligation{Name: k + "#contract.missing_function", Clause: k + "#contract.missing_function", Func: k, Pos: fmt.Sprintf("%s:%d", fc.File, fc.Line)}, Verdict: "error",
 				Attempts: []Attempt{{Solver: "govc", Verdict: "error", Out: "the function named by this contract no longer exists in the repository"}}})
 			continue
@@ -216,7 +216,7 @@ func runCheck(opt *checkOpts) int {
 					c.defs = append(c.defs, "(assert "+lf.lemmaAxiom(lm)+")")
 				}
 			}
-			verify(c, repo.funcs[u.key], fc, opt.property == "C15")
+			verify(c, repo.funcs[strings.TrimSuffix(u.key, "!body")], fc, opt.property == "C15")
 			funcsUnder = append(funcsUnder, u.key)
 		}()
 		if genErr != nil {
